@@ -1101,6 +1101,20 @@ def rule_terminate(crate, prop, tier):
     o.instances = 1
     an = crate.an(m)
     fx = crate.fx(m)
+    # the predicate sees the predecessor entry as stored: not an Option that was filtered / mapped on the way
+    for ev in an.events:
+        if ev["k"] == "call" and ev["key"] in ("core::ops::function::Fn::call", "core::ops::function::FnMut::call_mut") and len(ev["args"]) == 2 \
+                and ev["args"][1][0] == "agg" and len(ev["args"][1][3]) == 2:
+            second = ev["args"][1][3][1]
+            vals = [second]
+            if second[0] == "addr" and second[2] is None:
+                vals = [v for (var, ver), v in an.term_of.items() if var == second[1]]
+            for v in vals:
+                if v[0] == "call" and v[1].startswith("core::option::Option::") and v[1].split("::")[-1] in (
+                        "filter", "map", "and_then", "or", "or_else", "xor", "take", "replace", "zip", "then_some"):
+                    o.check(False, who, "predicate-sees-stored-entry", "the target predicate is called with a predecessor entry that went "
+                            "through Option::%s: it no longer sees what the tree stores (a self-referential entry turns into None)"
+                            % v[1].split("::")[-1], ev["span"])
     # the visited array: a local Vec<bool>
     marks = [ev for ev in an.events if ev["k"] == "store" and const_is(ev["val"], 1) and store_elem(ev)[0] is not None]
     o.check(len(an.cfg.loops) >= 1, who, "loop-exists", "no loop found")
